@@ -298,6 +298,7 @@ func init() {
 				}
 				add("hashmap-k3-s2", p("k", 3, "index", 3, "shards", 2, "nobatch", 1))
 				add("hashmap-k3-multichunk-values", p("k", 3, "index", 3, "shards", 1, "nobatch", 1, "bigv", 40))
+				add("hashmap-k2-multichunk-values-batch", p("k", 2, "index", 3, "shards", 1, "bigv", 40))
 				add("cfgsweep-k2", p("cfgsweep", 2, "k", 2, "nobatch", 1))
 			} else {
 				for idx := 1; idx <= 3; idx++ {
@@ -573,7 +574,7 @@ func init() {
 						} else if bs == 1 {
 							continue // quick tier: Sync batches are covered by the jobs above
 						}
-						add(fmt.Sprintf("all-calls-sync%d-bsync%d-io%d", sy, bs, io), merge(base, p("k", 3, "ops", ops, "bmax", 1, "sync", sy, "bsync", bs, "io", io, "vlens", 1, "dfs_lo", 80, "dfs_hi", 80)))
+						add(fmt.Sprintf("all-calls-sync%d-bsync%d-io%d", sy, bs, io), merge(base, p("k", 3, "ops", ops, "bmax", 1, "sync", sy, "bsync", bs, "io", io, "vlens", 1, "dfs_lo", 0, "dfs_hi", 0))) // no DataFileSize pressure: with small files the 70-byte batch reserve makes every Commit rotate (and fsync) first
 					}
 				}
 			}
@@ -689,7 +690,7 @@ func init() {
 	register(&CheckDef{
 		ID:    "C16",
 		Title: "A data directory has at most one open database at a time",
-		Reach: []string{"done", "reopened-after-close", "failed-open-corrupt", "failed-open-injected", "stale-close", "racing-open-won", "racing-open-lost", "pending-merge"},
+		Reach: []string{"done", "reopened-after-close", "failed-open-corrupt", "failed-open-injected", "stale-close", "racing-open-won", "racing-open-lost", "pending-merge", "open-panicked"},
 		Jobs: func(tier string) []JobSpec {
 			var js []JobSpec
 			for idx := 1; idx <= 3; idx += 2 {
@@ -909,6 +910,8 @@ func init() {
 				}
 				add(fmt.Sprintf("older-file-%s+%s", callNames[pr[0]], callNames[pr[1]]), p("call0", pr[0], "call1", pr[1], "race", 1, "index", 3, "shards", 1, "preempt", pp, "dfs_lo", 20, "dfs_hi", 20))
 			}
+			// three overlapping Merges: the one in progress, one that is rejected, one more
+			add("hashmap-Merge+Merge+Merge", p("call0", 9, "call1", 9, "call2", 10, "race", 1, "index", 3, "shards", 1, "preempt", 1, "dfs_lo", 100, "dfs_hi", 100))
 			if tier == "quick" {
 				add("hashmap-Put+Delete", p("call0", 0, "call1", 2, "race", 1, "index", 3, "shards", 2, "preempt", 2))
 				add("skiplist-Iterate+Put", p("call0", 5, "call1", 0, "race", 1, "index", 2, "shards", 1, "preempt", 2))
